@@ -118,7 +118,39 @@ def _doctype_shard(texts):
     return out, modes
 
 
+# -- <template>: fixed witnesses -----------------------------------------------------------------------------------
+# The reference model has no "in template" insertion mode (section 9 of DESIGN.md), so template handling is not
+# explored; these hand-derived trees (template contents shown as children of the template element, as in the
+# html5lib-tests dump format minus the "content" line) record that html5lib 1.1 does not implement the element.
+
+def _e(name, *kids):
+    return ("elem", HTML_NS, name, (), tuple(kids))
+
+
+HTML_NS = "http://www.w3.org/1999/xhtml"
+TEMPLATE_WITNESSES = [
+    ("<head><template></template><title>x</title>",
+     (_e("html", _e("head", _e("template"), _e("title", ("text", "x"))), _e("body")),)),
+    ("<table><template><td>x</td></template></table>",
+     (_e("html", _e("head"), _e("body", _e("table", _e("template", _e("td", ("text", "x")))))),)),
+    ("<template><tr><td>x",
+     (_e("html", _e("head", _e("template", _e("tr", _e("td", ("text", "x"))))), _e("body")),)),
+]
+
+
+def judge_template(text):
+    exp = dict(TEMPLATE_WITNESSES)[text]
+    got = impl_tree(text, None, False)
+    if got != exp:
+        return ("<template> is not handled as the standard prescribes (no 'in template' insertion mode, no template contents)",
+                "witness:template-not-implemented", exp, got)
+    return None
+
+
 def execute(config, case):
+    if config.get("theme") == "TEMPLATE":
+        j = judge_template(case)
+        return None if j is None else engine.Violation(H, config, case, j[2], j[3], j[0], j[1])
     j = judge(case, config.get("container"), config.get("scripting", False))
     if j is None:
         return None
@@ -191,6 +223,13 @@ def run(run):
         tot_t += n
         per["DOCTYPE/document"] = {"cases": n, "modes_expected": modes}
         run.sample({"theme": "DOCTYPE", "text": cases[len(cases) // 2]})
+    if not only or "TEMPLATE" in only.split(","):
+        for text, _ in TEMPLATE_WITNESSES:
+            j = judge_template(text)
+            tot_t += 1
+            if j is not None and j[1] not in classes:
+                classes[j[1]] = engine.Violation(H, {"theme": "TEMPLATE", "container": None, "scripting": False}, text, j[2], j[3], j[0], j[1])
+        per["TEMPLATE/witnesses"] = {"cases": len(TEMPLATE_WITNESSES)}
     for v in classes.values():
         run.violation(v)
     run.set("states", tot_s)
